@@ -147,6 +147,9 @@ class G(object):
         lines = []
         for _ in range(r.randint(1, 3)):
             lines.append(self.mark() + r.choice(['', ' \\textbf{x} ', ' % c', ' --- ``q\'\'', '  {  $ &', ' #1 ^_ ~']))
+        if r.random() < 0.3:
+            # the first character of the listing is one that is special in running text
+            lines[0] = r.choice(['\\section{Zv} ', '% ', '{', '$', '\\item ', '~', '#']) + lines[0]
         return '\n'.join(lines)
 
     def list_(self, depth):
@@ -207,6 +210,8 @@ class G(object):
                             cell['c'] = [self.text()]
                 if r.random() < 0.12 and not any(k in cell for k in ('decl', 'nested', 'group')):
                     cell['c'] = []          # an empty cell (header corner, continuation row)
+                if rich and aligns[c] == 'p' and span == 1 and 'multi' not in cell and len(cell['c']) >= 2 and not any(k in cell for k in ('decl', 'nested', 'group')) and r.random() < 0.4:
+                    cell['parbreak'] = r.choice(['\\par ', '\n\n'])      # a paragraph column may hold more than one paragraph
                 cells.append(cell)
                 c += span
             if not any(cell['c'] or 'nested' in cell for cell in cells):
@@ -354,6 +359,13 @@ class G(object):
                 if o['appendix'] and i > 0 and body['appendix'] is None and r.random() < 0.3:
                     body['appendix'] = len(body['secs'])
                 body['secs'].append(self.section(top, o['depth']))
+        body['pre_counters'] = []
+        if o['counters'] and r.random() < 0.3:
+            # counters assigned in the preamble (a document that continues the numbering of another one): in force from \begin{document} on
+            for _ in range(r.randint(1, 2)):
+                name = r.choice(['section', 'equation', 'figure', 'table', 'footnote'] + (['chapter'] if self.cls == 'book' else ['subsection']))
+                op = r.choice(['setcounter', 'setcounter', 'addtocounter', 'stepcounter'])
+                body['pre_counters'].append({'t': 'counter', 'op': op, 'name': name, 'value': r.choice([1, 2, 4, 9]) if op == 'setcounter' else r.choice([1, 2, 3])})
         self.bind_refs(body)
         body['theorems'] = sorted(self.used_theorems)
         body['user_counters'] = self.user_counters
@@ -571,6 +583,8 @@ def colspec(b):
 
 def p_cell(c):
     txt = p_inlines(c['c'])
+    if c.get('parbreak'):
+        txt = p_inlines(c['c'][:1]) + c['parbreak'] + p_inlines(c['c'][1:])
     if c.get('group'):
         txt = '{' + txt + '}'
     if c.get('decl'):
@@ -632,6 +646,8 @@ def preamble(doc, extra=''):
         s += '\\newtheorem{zqdef}{Definition}[section]\n'
     if doc.get('user_counters'):
         s += '\\newcounter{zqu}[section]\\newcounter{zqw}[zqu]\n'
+    for b in doc.get('pre_counters', ()):
+        s += ('\\stepcounter{%s}\n' % b['name']) if b['op'] == 'stepcounter' else ('\\%s{%s}{%d}\n' % (b['op'], b['name'], b['value']))
     return s + extra
 
 
